@@ -521,6 +521,23 @@ def eval_string_self_assign(P):
                 return it.atoms[('elem', 'self', 0, 'val')]
             if nm == 'strlen':
                 return len(cstr(it.ev(e[2][0]), it))
+            if nm == 'free':
+                p = it.ev(e[2][0])
+                if isinstance(p, tuple) and p[0] == 'ep' and p[1] in cap:
+                    # the block is gone: whatever still points into it reads released memory
+                    for k in range(cap[p[1]]):
+                        it.atoms.pop(('elem', p[1], k, None), None)
+                    cap[p[1]] = 0
+                    return 0
+                raise cint.NoEval('free of %r' % (p,))
+            if nm in ('malloc', 'calloc'):
+                n = it.ev(e[2][-1]) * (it.ev(e[2][0]) if nm == 'calloc' else 1)
+                name = 'buf%d' % (len(cap) + 1)
+                cap[name] = n
+                if nm == 'calloc':
+                    for k in range(n):
+                        it.atoms[('elem', name, k, None)] = 0
+                return ('ep', name, 0)
             if nm == 'realloc':
                 p, n = it.ev(e[2][0]), it.ev(e[2][1])
                 if p != ('ep', 'buf', 0):
@@ -571,6 +588,43 @@ def eval_string_self_assign(P):
 
 
 
+def check_generic_resize(P, ctx, rule='C16.resize-reaches-the-type'):
+    """resize(x, n) hands (x, n) to the type's own Resize member for every n — larger, smaller or equal to the current length, and 0 —
+    exactly once (a dispatcher that decides for itself that a request needs nothing never truncates a String).  Evaluated."""
+    fn = P.fn('resize')
+    ctx.fn(fn)
+    bad, unsup = None, None
+    for n in (0, 1, 5, 10, 11, 1000):
+        ev_ = []
+
+        def call(nm, e, it, ev_=ev_):
+            if nm in ('method_at_offset', 'instance', 'type_instance'):
+                return ('ep', 'inst', 0)
+            if nm in ('implements', 'implements_method_at_offset', 'type_implements'):
+                return 1
+            if nm == 'len':
+                return 10
+            if nm == 'type_of':
+                return 8500
+            if nm is None:
+                ev_.append([it.ev(a) for a in e[2]])
+                return 0
+            raise cint.NoEval('call %s' % nm)
+        atoms = {('global', 'NULL'): 0, ('global', 'Resize'): 8600, ('global', 'Len'): 8601, ('elem', 'inst', 0, 'resize'): 4242, ('offsetof',): 0}
+        it = cint.CInt(P, fn, atoms=atoms, call=call, recurse=False, strict=True)
+        it.atoms = atoms
+        r = it.run([5000, n])
+        if r[0] != 'ret':
+            unsup = unsup or 'resize(x, %d): %s' % (n, r[1])
+        elif ev_ != [[5000, n]]:
+            bad = bad or 'resize(x, %d) on an object of length 10: the type\'s resize member is %s' % (n, 'not called' if not ev_ else 'called with %s' % ev_)
+    if unsup and not bad:
+        ctx.undecided(rule, 'resize', site(fn), 'leaves the evaluated fragment: ' + unsup)
+    else:
+        ctx.check(bad is None, rule, 'resize', site(fn), 'resize(x, n) calls the type\'s Resize member once with (x, n), for n above, at and below the current length and for 0', [bad] if bad else None)
+    ctx.floor(rule, 1)
+
+
 def check_self_assign(P, ctx, rule='C16.assign-from-itself'):
     fn = P.fn(P.slot('String', 'Assign', 'assign'))
     ctx.fn(fn)
@@ -593,6 +647,8 @@ def run(ctx, load):
     check_refusal_covers_mutation(P, ctx, 'src/String.c', 'val', 'C16.heap-only', 'String')
     ctx.floor('C16.heap-only', 18)
     check_self_assign(P, ctx)
+    check_generic_resize(load(None, 'default'), ctx)
+    ctx.config = 'default'
     # hash is a function of the characters alone: hash_data reads inside the value and hashes the same bytes the same at any address (C10)
     from .rules_c10 import check_hash_data
     Ph = load(None, 'default')
